@@ -77,3 +77,5 @@ func SetBound(nameSuffix string, n int)               {}
 func ExactMul(on bool) {}
 func Verified(owner string, msgPtr interface{}) bool { return false }
 func VerifiedBy(did string) bool                     { return false }
+func DeepEq(a, b interface{}) bool { return false }
+func Trace(label string, v interface{}) {}
